@@ -474,7 +474,7 @@ def check_C06(tier):
 
 def check_C07(tier):
     from . import pathcheck
-    return run_hist_prop_then_threads('C07', tier, 7, 700, 30000, families=[gen.scen_dups, gen.scen_identity], per_family=(150, 2500), prof=RICH_ARGS,
+    return run_hist_prop_then_threads('C07', tier, 7, 700, 30000, families=[gen.scen_dups, gen.scen_identity], per_family=(380, 5000), prof=RICH_ARGS,
                          p_fail=0.05, p_clean=0.0,
                          unit_tie=('FB.PathNorm.abspath (abspath_clean, abspath_idempotent, loop_skip, loop_detour) describes '
                                    'FileBuilder._sanitize_filename', pathcheck.run))
